@@ -1,0 +1,25 @@
+//go:build verif
+
+// Hooks for the deterministic-simulation harness in /verif. This file is only
+// compiled with -tags verif; it adds accessors and hook variables and changes
+// no behaviour when the hooks are nil.
+
+package martian
+
+// VerifLiveContexts returns the number of live request-to-context associations.
+func VerifLiveContexts() int {
+	ctxmu.RLock()
+	defer ctxmu.RUnlock()
+
+	return len(ctxs)
+}
+
+// VerifYieldHook, when non-nil, is called at named yield points that the
+// harness inserts at check time (see /verif/tools/instrument.py).
+var VerifYieldHook func(site string)
+
+func verifYield(site string) {
+	if h := VerifYieldHook; h != nil {
+		h(site)
+	}
+}
